@@ -136,15 +136,21 @@ def handle (st : St) (args : List String) (impl : String) : St × Verdict :=
     | some msg, some id, some sw, some amount =>
       match fcommit amount id sw with
       | .ok c =>
-        if kind = "new" then (st, cmpModel (checkOutput fcommit c amount msg).show impl)
-        else if kind = "legacy" then (st, cmpModel (legacyCheckOutput fcommit c amount msg).show impl)
+        -- on the output's own (honest) message the answer is what the property fixes ("recovers
+        -- exactly …", `message_roundtrip_all` / `legacy_parse_message`): a deviation is a concrete
+        -- failing input; on a mutated message it is an internal observable of the byte logic
+        if kind = "new" then
+          (st, (if msg = proofMessage id sw then cmpSpec else cmpModel) (checkOutput fcommit c amount msg).show impl)
+        else if kind = "legacy" then
+          (st, (if msg = legacyProofMessage id sw then cmpSpec else cmpModel)
+            (legacyCheckOutput fcommit c amount msg).show impl)
         else (st, .unknown)
       | _ => (st, .unknown)
     | _, _, _, _ => (st, .unknown)
   | ["vcheck", vd, vc, m, h, sw, amount] =>
     match nat? vd, nat? vc, parseHex m, ident? h, Switch.parse sw, nat? amount with
     | some vd, some vc, some msg, some id, some sw, some amount =>
-      (st, cmpModel (viewCheckOutput vd (.ofU32 vc)
+      (st, (if msg = proofMessage id sw then cmpSpec else cmpModel) (viewCheckOutput vd (.ofU32 vc)
         (fun id' sw' => sameCommit amount id sw id' sw') amount msg).show impl)
     | _, _, _, _, _, _ => (st, .unknown)
   -- view keys made from a privately derived child (any depth, hardened words): `vk` = its path words
@@ -152,7 +158,9 @@ def handle (st : St) (args : List String) (impl : String) : St × Verdict :=
     match parseNatList vk, parseHex m, ident? h, Switch.parse sw, nat? amount with
     | some vk, some msg, some id, some sw, some amount =>
       match fcommit amount id sw with
-      | .ok c => (st, cmpModel (viewCheckAt freeKD (vk.map ChildNumber.ofU32) c amount msg).show impl)
+      -- honest message: `view_key_covers_iff` / `rewind_with_view_key_all` fix the answer
+      | .ok c => (st, (if msg = proofMessage id sw then cmpSpec else cmpModel)
+          (viewCheckAt freeKD (vk.map ChildNumber.ofU32) c amount msg).show impl)
       | _ => (st, .unknown)
     | _, _, _, _, _ => (st, .unknown)
   | ["vkrewind", vk, h, sw, amount] =>
@@ -175,6 +183,9 @@ def handle (st : St) (args : List String) (impl : String) : St × Verdict :=
   | "seedpair" :: _what :: _ => (st, cmpSpec "differ" impl)
   -- a seed of any length makes a keychain
   | ["seedlen", _len] => (st, cmpSpec "ok" impl)
+  -- one hasher object reused across derivations: every result equals the one obtained with a fresh
+  -- hasher / through ExtKeychain (`hasher_reuse_equals_fresh`)
+  | "hasher" :: _what :: _ => (st, cmpSpec "same" impl)
   -- arithmetic
   | ["bsum", p, n] => match scalars? p, scalars? n with
     | some p, some n => (st, cmpSpec (secpBlindSum p n).show impl)
@@ -189,7 +200,8 @@ def handle (st : St) (args : List String) (impl : String) : St × Verdict :=
     | some a, some b => (st, cmpSpec (bfSplit a b).show impl)
     | _, _ => (st, .unknown)
   | ["koff", p, n] => match scalars? p, scalars? n with
-    | some p, some n => (st, cmpModel (sumKernelOffsets p n).show impl)
+    -- blind-sum law (`blind_sum_or_zero_value`): the sum mod n, the zero factor when it cancels
+    | some p, some n => (st, cmpSpec (sumKernelOffsets p n).show impl)
     | _, _ => (st, .unknown)
   -- crypto contracts (sampled)
   | ["samekey", h, sw, h', sw'] => match ident? h, Switch.parse sw, ident? h', Switch.parse sw' with
@@ -208,7 +220,8 @@ def handle (st : St) (args : List String) (impl : String) : St × Verdict :=
     | _, _, _ => (st, .unknown)
   | "rewind_other" :: _ => (st, cmpSpec "none" impl)
   | ["derive_depth", h] => match ident? h with
-    | some id => (st, cmpModel (match fcommit 5 id .regular with
+    -- `derive_total`: derive_key / commit are total on every 17-byte identifier
+    | some id => (st, cmpSpec (match fcommit 5 id .regular with
         | .ok _ => "ok" | .err => "err" | .panic => "panic") impl)
     | none => (st, .unknown)
   -- builder
